@@ -59,18 +59,23 @@ def mech_validate(verdict, cov, ev, tag, label):
 
 
 def _move_all_closed(ev):
-    """Move the first all_closed hook event that follows a conn_closed of its run to just before that conn_closed."""
-    out = list(ev)
-    for i, x in enumerate(out):
+    """Candidates: an all_closed hook event moved to just before a conn_closed of its run that precedes it (whether the
+    model notices depends on whether that connection was still open for it: several candidates are tried)."""
+    out = []
+    for i, x in enumerate(ev):
         if x.get('e') == 'hook' and x.get('ev') == 'all_closed':
             j = i - 1
-            while j >= 0 and out[j].get('e') != 'reset':
-                if out[j].get('e') == 'hook' and out[j].get('ev') == 'conn_closed':
-                    y = out.pop(i)
-                    out.insert(j, y)
-                    return out
+            while j >= 0 and ev[j].get('e') != 'reset':
+                if ev[j].get('e') == 'hook' and ev[j].get('ev') == 'conn_closed':
+                    c = list(ev)
+                    y = c.pop(i)
+                    c.insert(j, y)
+                    out.append(c)
+                    break
                 j -= 1
-    return out
+        if len(out) >= 6:
+            break
+    return out or ev
 
 
 def check(prop, tier, seed):
